@@ -131,7 +131,7 @@ theorem cleanBefore_spec (h : Hist) (hw : WF h) (c : Nat) :
         exact ⟨a, b⟩
   obtain ⟨a, b⟩ := gen (List.range' h.cleanUntil (c - h.cleanUntil)) h hw
   have e : cleanBefore h c =
-      { (List.range' h.cleanUntil (c - h.cleanUntil)).foldl cleanStep h with cleanUntil := pred64 c } := rfl
+      { (List.range' h.cleanUntil (c - h.cleanUntil)).foldl cleanStep h with cleanUntil := c } := rfl
   rw [e]
   constructor
   · intro x hx; exact a x hx
@@ -142,7 +142,7 @@ theorem buildReport_spec (h : Hist) (hw : WF h) :
     (∀ p ∈ (buildReport h).2, h.nextReport ≤ p.ctr ∧ p.ctr < (buildReport h).1.nextReport) ∧
     h.nextReport ≤ (buildReport h).1.nextReport ∧ WF (buildReport h).1 := by
   unfold buildReport
-  by_cases hgt : h.nextReport > h.highestAcked
+  by_cases hgt : h.acked = false ∨ h.nextReport > h.highestAcked
   · rw [if_pos hgt]; exact ⟨by simp, by simp, Nat.le_refl _, hw⟩
   · rw [if_neg hgt]
     have spec := reportLoop_spec (List.range' h.nextReport (h.highestAcked + 1 - h.nextReport)) h [] hw
